@@ -204,6 +204,10 @@ def assertion(a):
 
 def status_xml(top='Success', second=None, message=None):
     def uri(x):
+        if x == 'SuccessCut':
+            return STATUS + 'Succes'            # the Success URN without its last letter
+        if x == 'SuccessBare':
+            return 'Success'                    # the bare word
         return x if ':' in x else STATUS + x
     inner = '<samlp:StatusCode Value="%s"/>' % uri(second) if second else ''
     msg = ("<samlp:StatusMessage>%s</samlp:StatusMessage>" % escape(message) if message else "<samlp:StatusMessage/>") if message is not None else ""
